@@ -856,6 +856,9 @@ class SyncState:  # pylint: disable=too-many-instance-attributes, too-many-publi
         if ent[side].otype == DIRECTORY and prior_path != path and not prior_path is None:
             # changing directory also changes child paths
             for sub, relative in self.get_kids(prior_path, side):
+                if sub is ent:
+                    # the folder itself, moved to a place below its old path: it is not its own child
+                    continue
                 if sub[side].oid is None:
                     # ousted from its id by another entry: it is in no path index, its path cannot be changed
                     continue
